@@ -144,7 +144,16 @@ theorem change_only_that_key (s : State) (key val : String) :
   repeat' split
   all_goals simp
 
-/-! ### looking a key up after `aclSet` / `aclDrop` -/
+/-! ### the access-control list is replaced as a whole; hand-over and dropping of one key as special cases -/
+
+/-- specification: the list with the owner of one key re-assigned (first match; appended if the key is new) -/
+def aclSet : List (String × Addr) → String → Addr → List (String × Addr)
+  | [], k, o => [(k, o)]
+  | (k', o') :: rest, k, o => if k' == k then (k, o) :: rest else (k', o') :: aclSet rest k o
+
+/-- specification: the list without a key -/
+def aclDrop (l : List (String × Addr)) (k : String) : List (String × Addr) := l.filter (fun e => e.1 != k)
+
 
 theorem lookup_cons_eq {β} (k : String) (b : β) (es : List (String × β)) :
     List.lookup k ((k, b) :: es) = some b := by
@@ -210,32 +219,60 @@ theorem lookup_aclDrop_other (l : List (String × Addr)) (k k' : String) (hk : k
       · subst h2; rw [lookup_cons_eq, lookup_cons_eq]
       · rw [lookup_cons_ne _ _ _ _ h2, lookup_cons_ne _ _ _ _ h2, ih]
 
-/-- Ownership hand-over: a change of the access-control list re-assigns exactly the named key - afterwards the list
-names the new owner for it and whoever it named before for every other key - and touches nothing else. -/
-theorem acl_handover (s : State) (k : String) (o : Addr) (hk : k ≠ "") (ho : o ≠ "")
-    (hs : (k ++ "=" ++ o).splitOn "=" = [k, o]) :   -- neither the key nor the address contains `=`
-    let s' := applyParam s "gov/acl" (k ++ "=" ++ o)
+/-- A change of `gov/acl` installs exactly the list its value decodes to - the whole list, not a difference to the
+current one: entries the new value does not repeat are gone, entries it names differently are re-assigned - and touches
+nothing else. -/
+theorem acl_replace (s : State) (val : String) (l : List (String × Addr)) (hp : parseAcl val = some l) :
+    let s' := applyParam s "gov/acl" val
+    s'.acl = l ∧ s'.p = s.p ∧ s'.daoOwner = s.daoOwner ∧ s'.bal = s.bal ∧ s'.supply = s.supply ∧ s'.vals = s.vals ∧
+    s'.bal2 = s.bal2 ∧ s'.supply2 = s.supply2 := by
+  intro s'
+  have e : s' = { s with acl := l } := by simp only [s', applyParam, hp]
+  rw [e]
+  exact ⟨rfl, rfl, rfl, rfl, rfl, rfl, rfl, rfl⟩
+
+/-- A value that does not decode to an access-control list changes nothing (`ModifyParam` ignores the error). -/
+theorem acl_undecodable (s : State) (val : String) (hp : parseAcl val = none) : applyParam s "gov/acl" val = s := by
+  simp only [applyParam, hp]
+
+/-- Ownership hand-over: a new list that differs from the current one in the owner of one key - afterwards the list
+names the new owner for it and whoever it named before for every other key - and nothing else is touched. -/
+theorem acl_handover (s : State) (val k : String) (o : Addr) (hp : parseAcl val = some (aclSet s.acl k o)) :
+    let s' := applyParam s "gov/acl" val
     s'.acl.lookup k = some o ∧ (∀ k', k' ≠ k → s'.acl.lookup k' = s.acl.lookup k') ∧
     s'.p = s.p ∧ s'.daoOwner = s.daoOwner ∧ s'.bal = s.bal ∧ s'.supply = s.supply ∧ s'.vals = s.vals := by
   intro s'
-  have e : s' = { s with acl := aclSet s.acl k o } := by
-    simp only [s', applyParam, parseAclChange, hs]
-    simp [hk, ho]
-  rw [e]
-  exact ⟨lookup_aclSet_self _ _ _, fun k' h => lookup_aclSet_other _ _ _ _ h, rfl, rfl, rfl, rfl, rfl⟩
+  obtain ⟨h, hp', hd, hb, hs, hv, _, _⟩ := acl_replace s val _ hp
+  refine ⟨?_, ?_, hp', hd, hb, hs, hv⟩
+  · show s'.acl.lookup k = some o
+    rw [h]; exact lookup_aclSet_self _ _ _
+  · intro k' hk
+    show s'.acl.lookup k' = _
+    rw [h]; exact lookup_aclSet_other _ _ _ _ hk
 
-/-- Dropping a key: a hand-over to the empty owner removes exactly the named key from the access-control list -
-afterwards nobody may change that parameter - and touches nothing else. -/
-theorem acl_drop (s : State) (k : String) (hk : k ≠ "") (hs : (k ++ "=").splitOn "=" = [k, ""]) :
-    let s' := applyParam s "gov/acl" (k ++ "=")
+/-- Dropping a key: a new list that omits one key - afterwards nobody may change that parameter - keeps every other
+entry and touches nothing else. -/
+theorem acl_drop (s : State) (val k : String) (hp : parseAcl val = some (aclDrop s.acl k)) :
+    let s' := applyParam s "gov/acl" val
     s'.acl.lookup k = none ∧ (∀ k', k' ≠ k → s'.acl.lookup k' = s.acl.lookup k') ∧
     s'.p = s.p ∧ s'.daoOwner = s.daoOwner ∧ s'.bal = s.bal := by
   intro s'
-  have e : s' = { s with acl := aclDrop s.acl k } := by
-    simp only [s', applyParam, parseAclChange, hs]
-    simp [hk]
-  rw [e]
-  exact ⟨lookup_aclDrop_self _ _, fun k' h => lookup_aclDrop_other _ _ _ h, rfl, rfl, rfl⟩
+  obtain ⟨h, hp', hd, hb, _⟩ := acl_replace s val _ hp
+  refine ⟨?_, ?_, hp', hd, hb⟩
+  · show s'.acl.lookup k = none
+    rw [h]; exact lookup_aclDrop_self _ _
+  · intro k' hk
+    show s'.acl.lookup k' = _
+    rw [h]; exact lookup_aclDrop_other _ _ _ hk
+
+set_option maxRecDepth 20000 in
+/-- a stale list re-installed (a replayed or late transaction): the owner of `gov/upgrade` goes back to what that
+list says, whatever happened in between; the hypotheses of `acl_replace` are met by a concrete value -/
+example : parseAcl "{\"type\":\"gov/non_map_acl\",\"value\":[{\"acl_key\":\"gov/acl\",\"address\":\"5faceb04b6c82e9303933730ec9a6dc5765c8c26\"},{\"acl_key\":\"gov/upgrade\",\"address\":\"\"}]}"
+    = some [("gov/acl", "5faceb04b6c82e9303933730ec9a6dc5765c8c26"), ("gov/upgrade", "")] := by decide
+example : parseAcl "{\"type\":\"gov/non_map_acl\",\"value\":[]}" = some [] := by decide
+example : parseAcl "{" = none := by decide
+example : parseAcl "{\"type\":\"gov/non_map_acl\",\"value\":[{\"acl_key\":\"gov/acl\",\"address\":\"5FACE\"}]}" = none := by decide
 
 /-- No block-level operation (BeginBlock, EndBlock, Commit, queued awards and burns) changes a
 parameter, the ACL or the DAO owner. -/
